@@ -378,6 +378,7 @@ pub fn gen_script(t: &mut Tape, p: &Profile) -> Script {
         start_wall_ns: 1_700_000_000_000_000_000 + t.choose(1000) as i128,
         metrics_fail: t.chance(1, 10),
         log_enabled: false,
+        spoil_app_after_start: None,
     };
     s
 }
